@@ -295,6 +295,34 @@ def cli_cases(tier):
                 out.append((family, pol, peer, fmt))
     out += multi_cert_cases()
     out += probe_fault_cases()
+    out += gex_order_cases()
+    more = []
+    for i, (family, pol, peer, fmt) in enumerate(c for c in out if c[3] == 'json'):
+        if i % 3 == 0:
+            more.append((family, pol, peer, ('json-l-warn', 'json-l-fail', 'json-v')[(i // 3) % 3]))
+    return out + more
+
+
+def gex_order_cases():
+    """peers offering a group exchange (so the modulus probes run between the first KEXINIT and the evaluation) x every order of 2-3 host
+    key / cipher / MAC names x exact policies listing them in every order: the verdict is about the lists the peer sent, in the order sent"""
+    out = []
+    GEX = 'diffie-hellman-group-exchange-sha256'
+    for field, names in (('key', ['rsa-sha2-512', 'ssh-ed25519']), ('key', ['rsa-sha2-512', 'ssh-rsa', 'ssh-ed25519']),
+                         ('ciphers', ['aes256-ctr', 'aes128-ctr', 'chacha20-poly1305@openssh.com']), ('macs', ['hmac-sha2-512', 'hmac-sha2-256']),
+                         ('kex', [GEX, 'curve25519-sha256', 'diffie-hellman-group-exchange-sha1'])):
+        pf = {'key': 'host_keys'}.get(field, field)
+        for order in itertools.permutations(names):
+            peer = dict(BASE_PEER, dh={GEX: 2048})
+            peer['kex'] = [GEX, 'curve25519-sha256']
+            peer[field] = list(order)
+            if 'diffie-hellman-group-exchange-sha1' in peer['kex']:
+                peer['dh']['diffie-hellman-group-exchange-sha1'] = 2048
+            for porder in itertools.permutations(names):
+                for subset in (False, True):
+                    pol = {'subset': subset, 'host_keys': list(peer['key']), 'kex': list(peer['kex']), 'ciphers': list(peer['ciphers']), 'macs': list(peer['macs'])}
+                    pol[pf] = list(porder)
+                    out.append(('gex-order', pol, peer, 'json' if (len(out) % 2) else 'text'))
     return out
 
 
@@ -348,6 +376,10 @@ def multi_cert_cases():
     return out
 
 
+# the verdict document is the same whatever output options accompany -j
+JSON_OPTS = {'json': ['-j'], 'json-l-warn': ['-jj', '-l', 'warn'], 'json-l-fail': ['-j', '-l', 'fail'], 'json-v': ['-jj', '-v']}
+
+
 def work_cli(chunk, st):
     for family, pol, peer, fmt in chunk:
         path = H.tmp_path('c06-policy.txt')
@@ -369,7 +401,7 @@ def work_cli(chunk, st):
             pass
         srv = P.Server(kex=kexl, key=peer['key'], enc=peer['ciphers'], mac=peer['macs'], banner=peer['banner'].encode(),
                        comp=peer['compressions'], host_keys=hk, gex=gex)
-        res = H.audit(srv, opts=['-n', '--skip-rate-test', '-P', path] + (['-j'] if fmt == 'json' else []), faults=peer.get('_faults'))
+        res = H.audit(srv, opts=['-n', '--skip-rate-test', '-P', path] + JSON_OPTS.get(fmt, []), faults=peer.get('_faults'))
         peer = {k: v for k, v in peer.items() if k != '_faults'}
         # what the tool really measured is unknown to us for sizes, so take the model's verdict from the requested peer
         refp = ref_peer(peer)
@@ -382,7 +414,7 @@ def work_cli(chunk, st):
         if res.status != exp_status:
             st.violation('cli:%s:exit-status-%s-expected-%s' % (family, res.status, exp_status), {'policy': pol, 'peer': peer, 'fmt': fmt, 'stdout': res.stdout[:500]})
             continue
-        if fmt == 'json':
+        if fmt in JSON_OPTS:
             try:
                 doc = json.loads(res.stdout)
             except ValueError:
@@ -452,7 +484,7 @@ def run(tier, seed):
             if n == 2 or tier != 'quick' or k[0] == 'ok']
     par.pmap(work_sequences, seqs, stats=st, chunk=4)
     vcases = []
-    for family, pol, peer, fmt in H.pick(cc, seed, 16 if tier == 'quick' else 80):
+    for family, pol, peer, fmt in H.pick([c for c in cc if c[3] in ('json', 'text')], seed, 16 if tier == 'quick' else 80):
         path = H.tmp_path('c06-val-%d.txt' % len(vcases))
         with open(path, 'w') as f:
             f.write(R.policy_text(pol))
